@@ -5,6 +5,9 @@ From EpyV Require Import Lib.Prelude Model.Kernel Model.Loci Model.Compart Model
 Import ListNotations.
 Open Scope Q_scope.
 
+Definition lact_action (n : Z) (x : bool * nat) : action :=
+  if fst x then ALAdd (snd x) (EN n) else ALDiscard (snd x) (EN n).
+
 Definition conc (tbl : list Loci.spec) (t : Q) (ed : option (Z * Z)) (n : Z) (w0 : cworld) (a : asum) : ist :=
   {| i_w := {| cw_st := match a_chg a with Some c => fst (change_compartment tbl (cw_st w0) n c) | None => cw_st w0 end;
                cw_occ := match a_occ a, ed with
@@ -16,7 +19,8 @@ Definition conc (tbl : list Loci.spec) (t : Q) (ed : option (Z * Z)) (n : Z) (w0
                          | None => cw_hit w0
                          end |};
      i_n := if a_bound a then Some n else None;
-     i_posts := match a_post a with Some (T, k) => [APostOn (EN n) T k] | None => [] end |}.
+     i_posts := match a_post a with Some (T, k) => [APostOn (EN n) T k] | None => [] end
+                ++ map (lact_action n) (a_lacts a) |}.
 
 Definition ed_left (ed : option (Z * Z)) (n : Z) : Prop := match ed with Some (x, _) => x = n | None => True end.
 Definition is_edge (ed : option (Z * Z)) : bool := match ed with Some _ => true | None => false end.
@@ -24,13 +28,14 @@ Definition is_edge (ed : option (Z * Z)) : bool := match ed with Some _ => true 
 Lemma aexec_conc : forall tbl t ed n w0, ed_left ed n -> forall s a a', aexec (is_edge ed) s a = Some a' ->
   exec tbl t ed s (conc tbl t ed n w0 a) = conc tbl t ed n w0 a'.
 Proof.
-  intros tbl t ed n w0 Hl s a a' H. destruct a as [b chg occ hit post].
+  intros tbl t ed n w0 Hl s a a' H. destruct a as [b chg occ hit post lacts].
   destruct ed as [[x y]|]; cbn in Hl; [subst x|]; cbn [is_edge] in H;
-  destruct s as [| c | fo | fo | | T k]; cbn in H;
+  destruct s as [| c | fo | fo | | T k | i | i]; cbn in H;
     repeat match type of H with
            | (if ?x then _ else _) = _ => destruct x
            | match ?x with _ => _ end = _ => destruct x
-           end; try discriminate; injection H as <-; unfold conc, exec, with_st; cbn; reflexivity.
+           end; try discriminate; injection H as <-; unfold conc, exec, with_st; cbn;
+    rewrite ?map_app, ?app_assoc, ?app_nil_r; reflexivity.
 Qed.
 
 Lemma arun_conc : forall tbl t ed n w0, ed_left ed n -> forall body a a', arun (is_edge ed) body a = Some a' ->
@@ -47,7 +52,7 @@ Definition is_some {A} (o : option A) : bool := match o with Some _ => true | No
 Lemma aexec_changes : forall edge s a a', aexec edge s a = Some a' ->
   is_some (a_chg a') = is_some (a_chg a) || match s with SChange _ => true | _ => false end.
 Proof.
-  intros edge s a a' H. destruct a as [b chg occ hit post].
+  intros edge s a a' H. destruct a as [b chg occ hit post lacts].
   destruct s; cbn in H;
     repeat match type of H with
            | (if ?x then _ else _) = _ => destruct x
@@ -78,16 +83,16 @@ Proof.
     + unfold interp. rewrite <- (conc_a0_node tbl t n w).
       rewrite (arun_conc tbl t None n w I body _ _ E).
       pose proof (arun_changes _ _ _ _ E) as Hc. cbn in Hc.
-      destruct a as [b [c|] [o|] [hh|] [pp|]]; try discriminate; injection H as <-; cbn in Hc; unfold finish; rewrite <- Hc;
+      destruct a as [b [c|] [o|] [hh|] [pp|] [|la lacts]]; try discriminate; injection H as <-; cbn in Hc; unfold finish; rewrite <- Hc;
         unfold finish, conc, handler, with_st; cbn; destruct w; cbn; rewrite ?app_nil_r; reflexivity.
-    + destruct a as [b [c|] [o|] [hh|] [pp|]]; try discriminate; injection H as <-; reflexivity.
+    + destruct a as [b [c|] [o|] [hh|] [pp|] [|la lacts]]; try discriminate; injection H as <-; reflexivity.
   - destruct (arun true body (a0 false)) as [a|] eqn:E; [|discriminate].
     destruct e as [n|n m].
-    + destruct a as [b [c|] [[|]|] [[|]|] pp]; try discriminate; injection H as <-; reflexivity.
+    + destruct a as [b [c|] [[|]|] [[|]|] pp [|la lacts]]; try discriminate; injection H as <-; reflexivity.
     + unfold interp. rewrite <- (conc_a0_edge tbl t n m w).
       rewrite (arun_conc tbl t (Some (n, m)) n w eq_refl body _ _ E).
       pose proof (arun_changes _ _ _ _ E) as Hc. cbn in Hc.
-      destruct a as [b [c|] [[|]|] [[|]|] pp]; try discriminate; injection H as <-; cbn in Hc; unfold finish; rewrite <- Hc;
+      destruct a as [b [c|] [[|]|] [[|]|] pp [|la lacts]]; try discriminate; injection H as <-; cbn in Hc; unfold finish; rewrite <- Hc;
         unfold finish, conc, handler, with_st; cbn; destruct w; cbn; destruct pp as [[T k]|]; reflexivity.
 Qed.
 
@@ -104,19 +109,19 @@ Proof.
     + unfold interp. rewrite <- (conc_a0_node tbl t n w).
       rewrite (arun_conc tbl t None n w I body _ _ E).
       pose proof (arun_changes _ _ _ _ E) as Hc. cbn in Hc.
-      destruct a as [b [c|] [o|] hh [pp|]]; try discriminate; injection H as <-;
+      destruct a as [b [c|] [o|] hh [pp|] [|la lacts]]; try discriminate; injection H as <-;
         destruct h; try discriminate; try (exfalso; apply Hobs; reflexivity); cbn in Hh; try injection Hh as <-;
         cbn in Hc; unfold finish; rewrite <- Hc; unfold conc, handler, with_st; cbn; rewrite ?app_nil_r; split; reflexivity.
-    + destruct a as [b [c|] [o|] hh [pp|]]; try discriminate; injection H as <-;
+    + destruct a as [b [c|] [o|] hh [pp|] [|la lacts]]; try discriminate; injection H as <-;
         destruct h; try discriminate; try (exfalso; apply Hobs; reflexivity); split; reflexivity.
   - destruct (arun true body (a0 false)) as [a|] eqn:E; [|discriminate].
     destruct e as [n|n m].
-    + destruct a as [b [c|] o hh pp]; try discriminate; injection H as <-;
+    + destruct a as [b [c|] o hh pp [|la lacts]]; try discriminate; injection H as <-;
         destruct h; try discriminate; split; reflexivity.
     + unfold interp. rewrite <- (conc_a0_edge tbl t n m w).
       rewrite (arun_conc tbl t (Some (n, m)) n w eq_refl body _ _ E).
       pose proof (arun_changes _ _ _ _ E) as Hc. cbn in Hc.
-      destruct a as [b [c|] o hh pp]; try discriminate; injection H as <-;
+      destruct a as [b [c|] o hh pp [|la lacts]]; try discriminate; injection H as <-;
         destruct h as [|c' mk post| |]; try discriminate; cbn in Hh; injection Hh as -> ->;
         cbn in Hc; unfold finish; rewrite <- Hc; unfold conc, handler, with_st; cbn; destruct mk; cbn; destruct pp as [[T k]|]; split; reflexivity.
 Qed.
